@@ -35,6 +35,8 @@ CONSTANTS
   RequiredFileIs422,       \* D32: a missing required file parameter is a `required` failure (FALSE: ParseError, status 400)
   FormDataFromBodyOnly,    \* TRUE: urlencoded formData parameters are read from the request body (request.PostForm).
                            \*       FALSE: a seeded mutant - request.Form, i.e. the URL query string merged after the body fields
+                           \* (formats are those of the registry the binder was given: the tables contain "sku", an
+                           \*  application-defined format registered only on the API's registry, next to strfmt's own)
   ItemFormatValidated      \* D33: array items of named-string formats are checked against their format (FALSE: validate's
                            \*      items validator consults the format of the array parameter; any text is accepted)
 
